@@ -172,6 +172,14 @@ func (this *FPAQEncoder) Write(block []byte) (int, error) {
 }
 
 func (this *FPAQEncoder) flush() {
+	if this.index+4 > len(this.buffer) {
+		// The chunk expands more than estimated: grow the buffer instead of
+		// running past its end
+		buf := make([]byte, 2*len(this.buffer)+4)
+		copy(buf, this.buffer[0:this.index])
+		this.buffer = buf
+	}
+
 	binary.BigEndian.PutUint32(this.buffer[this.index:], uint32(this.high>>24))
 	this.index += 4
 	this.low <<= 32
